@@ -186,6 +186,18 @@ def corpus():
                      plain=0))
     # plain: an (empty) directory renamed onto the path of a removed file: the file's D is swallowed, the file stays
     out.append(_case(n, s, [_rev([], [d(1, 0, 3), f(2, 0, 0), f(3, 0, 4)]), _rev([0], [d(1, 0, 4), f(2, 0, 0)])]))
+    # rename + executable-bit flip with identical content in one commit (plain and rich), then a later commit
+    rx = [_rev([], [f(1, 0, 0), f(2, 0, 1, 3)]), _rev([0], [f(1, 0, 2, 2, 1), f(2, 0, 1, 3)]),
+          _rev([1], [f(1, 0, 2, 2, 1), f(2, 0, 1, 5)])]
+    out.append(_case(n, s, rx))
+    out.append(_case(n, s, rx, plain=0))
+    out.append(_case(n, s, [_rev([], [d(1, 0, 3), f(2, 1, 0, 2, 1)]), _rev([0], [d(1, 0, 3), f(2, 0, 1, 2, 0)])]))
+    # tags on revisions of a merged side branch (reachable only through a right-hand parent), on the
+    # mainline and on the merge itself
+    mg = [_rev([], [f(1, 0, 0)]), _rev([0], [f(1, 0, 0, 3)]), _rev([0], [f(1, 0, 0), f(2, 0, 1)]),
+          _rev([2], [f(1, 0, 0), f(2, 0, 1, 3)]), _rev([1, 3], [f(1, 0, 0, 3), f(2, 0, 1, 3)])]
+    out.append(_case(n, s, mg, tags=[[6, 2], [4, 3]]))
+    out.append(_case(n, s, mg, tags=[[6, 3]], plain=0))
     return out
 
 
@@ -200,7 +212,7 @@ def cases(rng, tier):
         c["props"] = 1
         yield c
     for focus in ["rename", "move", "swap", "chain", "dirrename", "kind", "replace", "moveout", "remove", "nest",
-                  "emptyout"]:
+                  "emptyout", "renexec"]:
         for _ in range(n_focus):
             c = G.gen_case(rng, n=rng.choice([2, 3]), focus=focus, plain=1, nasty=0.0)
             c["props"] = 1
@@ -208,7 +220,7 @@ def cases(rng, tier):
     # rich streams, linear histories (imported for real): directory renames followed by renames below them,
     # modified children of renamed directories, children moved out of removed directories ...
     for k in range(n_rich):
-        focus = [None, "dirrename", "move", "moveout", "rename", "kind"][k % 6]
+        focus = [None, "dirrename", "move", "moveout", "rename", "kind", "renexec"][k % 7]
         c = G.gen_case(rng, n=rng.choice([2, 3, 4, 5]), focus=focus, plain=0, nasty=0.1, linear=True)
         c["props"] = int(rng.random() < 0.7)
         if not c["props"]:
